@@ -1,7 +1,7 @@
-import MxModel.Proofs.ExecEdits
-import MxModel.Proofs.ExecCertOps
-import MxModel.Proofs.ExecObj
+import MxModel.Proofs.ExecGraphOps
 import MxModel.Proofs.ExprRanked
+import MxModel.Proofs.ExecCertRunOps
+import MxModel.Proofs.ExecCertExamples
 import MxModel.Exec.Expr
 /-!
 # C08 – graph and cache agree; the graph is acyclic
@@ -12,105 +12,16 @@ handled and unhandled failures, cached and uncached cells, the depth limit.  His
 interleaving of top-level evaluations (hits and misses), value assignments, `clear_at`,
 `clear`, `clear_all` and `clear_obj`, from the empty model.
 
-What is *not* proved here and is checked only by the correspondence and by the
-call-recording oracle: that the predecessor set of an element is exactly the set of calls its
-formula made (the model adds an edge exactly when a call returns a value – `hitEdge`,
-`popEdge` – and removes them on rollback; the theorem relating this to a trace of the formula
-is future work).
+**Predecessors = the calls made** (`edges_are_exactly_the_calls`, regime `C02.WF`: additionally
+`NoCatch` and static scoping): in every state with certificates – hence every reachable state of the
+thirteen-operation language – a held computed element has a replayable trace of its formula, and
+the sources of the edges INTO it are exactly the recorded calls: the cached elements it (or an
+uncached callee on its behalf, at any nesting depth) called, and the object nodes of the uncached
+cells it went through.  For formulas that handle failures the statement is decided by the
+call-recording oracle of the check (a handled failure leaves no record: C02-caught-failure-untracked).
 -/
 namespace MxModel.C08
 open MxModel.Exec
-
-/-- operations of the value layer -/
-inductive Op
-  | eval (n : Node)
-  | set (n : Node) (v : Val)
-  | clearAt (n : Node)
-  | clear (c : CellId)
-  | clearAll (c : CellId)
-  | clearObj (c : CellId)
-
-def step (env : Env) (s : St) : Op → St
-  | .eval n => (evalTop env n s).2
-  | .set n v => if env.cached n.1 then (s.setValue env n v).1 else s   -- uncached: ValueError
-  | .clearAt n => s.clearValueAt n true
-  | .clear c => s.clearAllValues c false
-  | .clearAll c => s.clearAllValues c true
-  | .clearObj c => s.clearObj c
-
-def run (env : Env) (s : St) (ops : List Op) : St := ops.foldl (step env) s
-
-/-- idle executor -/
-def Idle (s : St) : Prop := s.stack = [] ∧ s.idx = []
-
-theorem step_inv (env : Env) (lt : Node → Node → Prop) (ho : StrictOrder lt) (hr : Ranked env lt)
-    (s : St) (op : Op) (g : GI env lt s) (hi : Idle s) :
-    GI env lt (step env s op) ∧ Idle (step env s op) := by
-  obtain ⟨hst, hidx⟩ := hi
-  cases op with
-  | eval n =>
-    obtain ⟨g', h1, h2, _⟩ := g.topCall ho hr hst hidx n
-    exact ⟨g', h1, h2⟩
-  | set n v =>
-    simp only [step]
-    split
-    · rename_i hc
-      obtain ⟨g', h1⟩ := g.setValue hst n v hc
-      refine ⟨g', h1, ?_⟩
-      have : ∀ s' : St, (s'.clearValueAt n true).idx = s'.idx := by
-        intro s'
-        unfold St.clearValueAt
-        split
-        · split
-          · rw [clearWithDescs_eq]; split <;> rfl
-          · rfl
-        · rfl
-      unfold St.setValue
-      simp only []
-      split
-      · exact hidx
-      · unfold St.addNode; split <;> (simp only []; rw [this]; exact hidx)
-    · exact ⟨g, hst, hidx⟩
-  | clearAt n =>
-    refine ⟨g.clearValueAt hst n true, by simp only [step]; rw [clearValueAt_stack]; exact hst, ?_⟩
-    simp only [step]
-    unfold St.clearValueAt
-    split
-    · split
-      · rw [clearWithDescs_eq]; split <;> exact hidx
-      · exact hidx
-    · exact hidx
-  | clear c =>
-    obtain ⟨g', h1⟩ := g.clearAllValues hst c false
-    refine ⟨g', h1, ?_⟩
-    simp only [step]
-    exact clearAll_idx s c false hidx
-  | clearAll c =>
-    obtain ⟨g', h1⟩ := g.clearAllValues hst c true
-    refine ⟨g', h1, ?_⟩
-    simp only [step]
-    exact clearAll_idx s c true hidx
-  | clearObj c =>
-    exact ⟨g.clearObj hst c, by simp [step, St.clearObj, St.dropValues, St.rgRemoveReferred, St.removeNodes, hst],
-      by simp [step, St.clearObj, St.dropValues, St.rgRemoveReferred, St.removeNodes, hidx]⟩
-where
-  clearAll_idx (s : St) (c : CellId) (ci : Bool) (h : s.idx = []) : (s.clearAllValues c ci).idx = [] := by
-    unfold St.clearAllValues
-    generalize ((s.data.filter (fun e => e.1.1 == c)).map (·.1)) = keys
-    induction keys generalizing s with
-    | nil => exact h
-    | cons k rest ih =>
-      simp only [List.foldl]
-      apply ih
-      unfold St.clearValueAt
-      split
-      · split
-        · rw [clearWithDescs_eq]; split <;> exact h
-        · exact h
-      · exact h
-
-theorem empty_GI (env : Env) (lt : Node → Node → Prop) : GI env lt {} := by
-  constructor <;> simp
 
 /-- **Every reachable state satisfies the graph invariant**: after any finite history of
 evaluations, cache hits, value edits and failed evaluations. -/
@@ -233,6 +144,61 @@ example : (run gEnv {} gOps).ge =
 example (a : GNode) : ¬ Path (run gEnv {} gOps).ge a a :=
   graph_acyclic gEnv idLt idLt_strict gEnv_ranked gOps a
 
+/-! ### `Ranked` is needed – or the depth limit must not be caught
+
+Every theorem above assumes terminating programs (`Ranked`).  Without it the statements are false of
+the model AND of modelx when a formula catches `DeepReferenceError`: `c0 = try: c1() except: 0`,
+`c1 = c0()` under a limit of three frames.  The recursion `c0 → c1 → c0 → c1` hits the limit in the
+innermost `c0`; that `c0` handles it and returns `0`, is STORED while the outer `c0` is still
+executing, `c1` completes (edge `c0 → c1`), the outer `c0` completes and overwrites itself (edge
+`c1 → c0`): the dependency graph is cyclic, an executing element held a value, `c0` was executed and
+stored twice.  Real modelx (`notes/EXECP-repro_cycle_caught_deep.py`): edges `[(c0, c1), (c1, c0)]`,
+`nx.is_directed_acyclic_graph` is `False`.  Recorded as known finding C08-cycle-after-caught-deep (variant
+of C01-caught-deep: same cause, a handled depth error).  For programs that do not catch the depth
+error the recursion ends in an uncaught `DeepReferenceError` and everything is rolled back
+(`ranked_or_limit_needed` second part). -/
+
+def cyCells : CellId → Option Expr
+  | 0 => some (.try_ (.call 1 []) .all (.lit 0))
+  | 1 => some (.call 0 [])
+  | _ => none
+
+def cyEnv : Env where
+  formula := fun n => match cyCells n.1 with
+    | some e => formulaOf (fun c => (cyCells c).map (fun _ => 0)) e n.2
+    | none => .raise (.user kName)
+  cached := fun _ => true
+  allowNone := fun _ => false
+  refs := fun _ => none
+  maxdepth := 3
+
+/-- the same two cells without the handler: `c0 = c1()`, `c1 = c0()` -/
+def cyCells' : CellId → Option Expr
+  | 0 => some (.call 1 [])
+  | 1 => some (.call 0 [])
+  | _ => none
+
+def cyEnv' : Env := { cyEnv with formula := fun n => match cyCells' n.1 with
+    | some e => formulaOf (fun c => (cyCells' c).map (fun _ => 0)) e n.2
+    | none => .raise (.user kName) }
+
+/-- **The graph statements are false without `Ranked` when the depth error is caught** – the graph
+has a cycle, and an element was executed twice in one evaluation –; when it is not caught the
+non-terminating recursion ends in `DeepReferenceError` and leaves nothing behind. -/
+theorem ranked_or_limit_needed :
+    (¬ ∀ (env : Env) (ops : List Op) (a : GNode), ¬ Path (run env {} ops).ge a a) ∧
+    (run cyEnv {} [.eval (0, [])]).log = [(1, []), (0, []), (1, []), (0, [])] ∧
+    (evalTop cyEnv' (0, []) {}).1 = .formulaError .deep [(0, []), (1, []), (0, []), (1, [])] ∧
+    (evalTop cyEnv' (0, []) {}).2.gn = [] ∧ (evalTop cyEnv' (0, []) {}).2.data = [] := by
+  refine ⟨?_, by decide, by decide, by decide, by decide⟩
+  intro h
+  refine h cyEnv [.eval (0, [])] (.elem (0, [])) (Path.cons (b := .elem (1, [])) ?_ (Path.single ?_))
+  · decide
+  · decide
+
+example : (run cyEnv {} [.eval (0, [])]).ge =
+    [(.elem (0, []), .elem (1, [])), (.elem (1, []), .elem (0, []))] := by decide
+
 /-! ## Histories that also edit the definitions
 
 The value-layer language above keeps the definitions fixed.  Here an operation may also change
@@ -242,93 +208,6 @@ performs for it (`St.setRef`, `St.delRef`, `St.setFormula` = `clear_obj`; the se
 `is_cached` returns at once when the flag already has the value).  The only hypothesis is that
 the definitions stay terminating (`Ranked`) – formulas may handle failures, cells may be
 uncached, the depth limit may be hit. -/
-
-inductive EOp
-  | eval (n : Node)
-  | set (n : Node) (v : Val)
-  | clearAt (n : Node)
-  | clear (c : CellId)
-  | clearAll (c : CellId)
-  | setRef (r : RefId) (v : Val)
-  | delRef (r : RefId)
-  | setFormula (c : CellId) (f : Key → Prog)
-  | setCached (c : CellId) (b : Bool)
-
-def withRef (env : Env) (r : RefId) (x : Option Val) : Env :=
-  { env with refs := fun r' => if r' = r then x else env.refs r' }
-
-def withFormula (env : Env) (c : CellId) (f : Key → Prog) : Env :=
-  { env with formula := fun n => if n.1 = c then f n.2 else env.formula n }
-
-def withCached (env : Env) (c : CellId) (b : Bool) : Env :=
-  { env with cached := fun c' => if c' = c then b else env.cached c' }
-
-/-- one operation on the definitions and the mechanism state, in modelx's order: the clearing
-happens while the old definitions are in force, then the definition changes -/
-def estep : Env × St → EOp → Env × St
-  | (env, s), .eval n => (env, (evalTop env n s).2)
-  | (env, s), .set n v => (env, if env.cached n.1 then (s.setValue env n v).1 else s)
-  | (env, s), .clearAt n => (env, s.clearValueAt n true)
-  | (env, s), .clear c => (env, s.clearAllValues c false)
-  | (env, s), .clearAll c => (env, s.clearAllValues c true)
-  | (env, s), .setRef r v => (withRef env r (some v), s.setRef env r)
-  | (env, s), .delRef r => if (env.refs r).isSome then (withRef env r none, s.delRef env r) else (env, s)
-  | (env, s), .setFormula c f => (withFormula env c f, s.setFormula c)
-  | (env, s), .setCached c b => if env.cached c = b then (env, s) else (withCached env c b, s.setFormula c)
-
-def erun (st : Env × St) (ops : List EOp) : Env × St := ops.foldl estep st
-
-/-- the definitions stay terminating after every operation (automatic for everything except
-formula edits: `ranked_withRef`, `ranked_withCached`) -/
-def StaysRanked (lt : Node → Node → Prop) : Env × St → List EOp → Prop
-  | _, [] => True
-  | st, op :: ops => Ranked (estep st op).1 lt ∧ StaysRanked lt (estep st op) ops
-
-theorem ranked_withRef {env : Env} {lt : Node → Node → Prop} (h : Ranked env lt) (r : RefId)
-    (x : Option Val) : Ranked (withRef env r x) lt := h
-
-theorem ranked_withCached {env : Env} {lt : Node → Node → Prop} (h : Ranked env lt) (c : CellId)
-    (b : Bool) : Ranked (withCached env c b) lt := h
-
-theorem estep_inv (lt : Node → Node → Prop) (ho : StrictOrder lt) (st : Env × St) (op : EOp)
-    (hr : Ranked st.1 lt) (g : GI st.1 lt st.2) (hi : Idle st.2) :
-    GI (estep st op).1 lt (estep st op).2 ∧ Idle (estep st op).2 := by
-  obtain ⟨env, s⟩ := st
-  have clrIdle : ∀ {s' : St} {R : List GNode} {D : RefId × Node → Prop}, Clr s R D s' → Idle s' :=
-    fun hc => ⟨hc.stack.trans hi.1, hc.idx.trans hi.2⟩
-  cases op with
-  | eval n => exact step_inv env lt ho hr s (.eval n) g hi
-  | set n v => exact step_inv env lt ho hr s (.set n v) g hi
-  | clearAt n => exact step_inv env lt ho hr s (.clearAt n) g hi
-  | clear c => exact step_inv env lt ho hr s (.clear c) g hi
-  | clearAll c => exact step_inv env lt ho hr s (.clearAll c) g hi
-  | setRef r v =>
-    obtain ⟨R, D, hc, _, _⟩ := clr_setRef env s g.edgeOK r
-    have hed : RefEdit env (withRef env r (some v)) r := ⟨rfl, rfl, rfl, fun r' h => by simp [withRef, h], rfl⟩
-    exact ⟨refEdit_gi g hi.1 hed hc, clrIdle hc⟩
-  | delRef r =>
-    simp only [estep]
-    split
-    · obtain ⟨R, hc, _⟩ := clr_delRef env s g.edgeOK r
-      have hed : RefEdit env (withRef env r none) r := ⟨rfl, rfl, rfl, fun r' h => by simp [withRef, h], rfl⟩
-      exact ⟨refEdit_gi g hi.1 hed hc, clrIdle hc⟩
-    · exact ⟨g, hi⟩
-  | setFormula c f =>
-    simp only [estep, St.setFormula]
-    obtain ⟨R, hc, hel, _⟩ := clr_clearObj s (fun _ => False) g.edgeOK c
-    refine ⟨g.of_clr hi.1 hc ?_, clrIdle hc⟩
-    intro m _; rfl
-  | setCached c b =>
-    simp only [estep]
-    split
-    · exact ⟨g, hi⟩
-    · simp only [St.setFormula]
-      obtain ⟨R, hc, hel, _⟩ := clr_clearObj s (fun _ => False) g.edgeOK c
-      refine ⟨g.of_clr hi.1 hc ?_, clrIdle hc⟩
-      intro m hm
-      obtain ⟨h1, h2⟩ := (hc.mem_gn _).mp hm
-      have : m.1 ≠ c := fun h => h2 (hel m h h1)
-      simp [withCached, this]
 
 /-- **Every reachable state satisfies the graph invariant – also across edits of the
 definitions**: after any finite history of evaluations, cache hits, failed evaluations, value
@@ -378,62 +257,6 @@ The key-less node `(cells,)` stands for an uncached cells.  It is legitimate onl
 IS uncached: switching the flag on must remove it together with everything calculated through
 the cells (`clear_obj`).  No hypothesis on the programs beyond `Ranked` (which gives `GI`, needed
 for the closure facts of the clearing routines). -/
-
-theorem estep_obj (lt : Node → Node → Prop) (st : Env × St) (op : EOp)
-    (g : GI st.1 lt st.2) (hi : Idle st.2) (hobj : ObjOK st.1 st.2) :
-    ObjOK (estep st op).1 (estep st op).2 := by
-  obtain ⟨env, s⟩ := st
-  have clrSub : ∀ {s' : St} {R : List GNode} {D : RefId × Node → Prop}, Clr s R D s' → ObjGrow env s s' :=
-    fun hc => ObjGrow.of_sub (fun x hx => ((hc.mem_gn x).mp hx).1)
-  cases op with
-  | eval n => exact hobj.grow (evalTop_obj n s)
-  | set n v =>
-    simp only [estep]
-    split
-    · obtain ⟨R, hc, _⟩ := clr_clearValueAt s (fun _ => False) g.edgeOK n true
-      refine hobj.grow ?_
-      unfold St.setValue
-      split
-      · exact ObjGrow.refl s
-      · simp only []
-        refine (clrSub hc).trans ?_
-        have h1 : ObjGrow env (s.clearValueAt n true)
-            { s.clearValueAt n true with data := insert (s.clearValueAt n true).data n v } := ObjGrow.of_gn rfl
-        refine h1.trans ((objGrow_addNode_elem _ n).trans (ObjGrow.of_gn rfl))
-    · exact hobj
-  | clearAt n =>
-    obtain ⟨R, hc, _⟩ := clr_clearValueAt s (fun _ => False) g.edgeOK n true
-    exact hobj.grow (clrSub hc)
-  | clear c =>
-    obtain ⟨R, hc, _⟩ := clr_clearAllValues s (fun _ => False) g.edgeOK c false
-    exact hobj.grow (clrSub hc)
-  | clearAll c =>
-    obtain ⟨R, hc, _⟩ := clr_clearAllValues s (fun _ => False) g.edgeOK c true
-    exact hobj.grow (clrSub hc)
-  | setRef r v =>
-    obtain ⟨R, D, hc, _, _⟩ := clr_setRef env s g.edgeOK r
-    exact hobj.grow (clrSub hc)
-  | delRef r =>
-    simp only [estep]
-    split
-    · obtain ⟨R, hc, _⟩ := clr_delRef env s g.edgeOK r
-      exact hobj.grow (clrSub hc)
-    · exact hobj
-  | setFormula c f =>
-    simp only [estep, St.setFormula]
-    obtain ⟨R, hc, _, _⟩ := clr_clearObj s (fun _ => False) g.edgeOK c
-    exact hobj.grow (clrSub hc)
-  | setCached c b =>
-    simp only [estep]
-    split
-    · exact hobj
-    · simp only [St.setFormula]
-      obtain ⟨R, hc, _, hgone⟩ := clr_clearObj s (fun _ => False) g.edgeOK c
-      intro c' hc'
-      obtain ⟨h1, h2⟩ := (hc.mem_gn _).mp hc'
-      have hne : c' ≠ c := fun h => h2 (h ▸ hgone (h ▸ h1))
-      simp only [withCached, hne, if_false]
-      exact hobj c' h1
 
 /-- **An object node is in the graph only for a cells that is uncached NOW** – in every state
 reachable by evaluations, failed evaluations, value edits, reference edits, formula edits and
@@ -500,5 +323,130 @@ example : (evalTop (withCached hEnv 1 true) (2, k1)
 
 example : StaysRanked idLt (hEnv, {}) [.eval (2, k1), .setCached 1 true, .eval (2, k1)] :=
   ⟨hEnv_ranked, ranked_withCached hEnv_ranked 1 true, ranked_withCached hEnv_ranked 1 true, trivial⟩
+
+/-! ## The full edit language
+
+`C02.Op` is the union of the edit languages of the executor family – thirteen operations:
+evaluations (hits, misses, failed, stopped by the limit), value assignment, `clear_at`, `clear`,
+`clear_all`, reference set / delete, formula edit, `is_cached` switch, cells deleted, cells created,
+`set_recursion`, administrative calls.  Every reachable state has the certificate invariant
+(`C02.reachable_ci`), whose first component is `GI`; the graph statements follow for every reachable
+state of THAT language – in the regime `C02.WF` (terminating, `NoCatch`, statically scoped), which
+`C02.Admissible` keeps across formula edits and cells creation. -/
+
+theorem reachable_inv_full (lt : Node → Node → Prop) (ho : StrictOrder lt) (env0 : Env)
+    (hw0 : C02.WF env0 lt) (ops : List C02.Op) (hadm : C02.Admissible lt (env0, {}) ops) :
+    GI (C02.run (env0, {}) ops).1 lt (C02.run (env0, {}) ops).2 ∧ Idle (C02.run (env0, {}) ops).2 :=
+  have h := (C02.run_ci lt ho ops (env0, {}) hw0 (CI.empty env0 lt) hadm).1
+  ⟨h.gi, h.quiet.stack, h.quiet.idx⟩
+
+/-- **Graph element nodes = held elements**, all of cells that are cached NOW and exist NOW. -/
+theorem graph_nodes_eq_held_full (lt : Node → Node → Prop) (ho : StrictOrder lt) (env0 : Env)
+    (hw0 : C02.WF env0 lt) (ops : List C02.Op) (hadm : C02.Admissible lt (env0, {}) ops) (m : Node) :
+    (GNode.elem m ∈ (C02.run (env0, {}) ops).2.gn ↔ (lookup (C02.run (env0, {}) ops).2.data m).isSome) ∧
+    (GNode.elem m ∈ (C02.run (env0, {}) ops).2.gn →
+      (C02.run (env0, {}) ops).1.cached m.1 = true ∧ (C02.run (env0, {}) ops).1.alive m.1 = true) := by
+  have h := (C02.run_ci lt ho ops (env0, {}) hw0 (CI.empty env0 lt) hadm).1
+  refine ⟨⟨fun hm => ?_, fun hm => (h.gi.heldNodes m hm).1⟩,
+    fun hm => ⟨h.gi.elemCached m hm, h.alive.nodes _ hm⟩⟩
+  rcases h.gi.nodesHeld m hm with h' | h'
+  · exact h'
+  · rw [h.quiet.stack] at h'; cases h'
+
+/-- **The graph never mentions a cleared or deleted element**: both ends of every edge are nodes. -/
+theorem edges_between_nodes_full (lt : Node → Node → Prop) (ho : StrictOrder lt) (env0 : Env)
+    (hw0 : C02.WF env0 lt) (ops : List C02.Op) (hadm : C02.Admissible lt (env0, {}) ops) (a b : GNode)
+    (h : (a, b) ∈ (C02.run (env0, {}) ops).2.ge) :
+    a ∈ (C02.run (env0, {}) ops).2.gn ∧ b ∈ (C02.run (env0, {}) ops).2.gn :=
+  (reachable_inv_full lt ho env0 hw0 ops hadm).1.edgeNodes a b h
+
+/-- **The graph is acyclic** after any history of the full language. -/
+theorem graph_acyclic_full (lt : Node → Node → Prop) (ho : StrictOrder lt) (env0 : Env)
+    (hw0 : C02.WF env0 lt) (ops : List C02.Op) (hadm : C02.Admissible lt (env0, {}) ops) (a : GNode) :
+    ¬ Path (C02.run (env0, {}) ops).2.ge a a := by
+  intro p
+  obtain ⟨u, hu, h⟩ := path_ordered ho (reachable_inv_full lt ho env0 hw0 ops hadm).1 p
+  subst hu
+  rcases h with ⟨m, hm, hlt⟩ | ⟨c, hc⟩
+  · cases hm; exact ho.irrefl _ hlt
+  · cases hc
+
+theorem inputs_have_no_preds_full (lt : Node → Node → Prop) (ho : StrictOrder lt) (env0 : Env)
+    (hw0 : C02.WF env0 lt) (ops : List C02.Op) (hadm : C02.Admissible lt (env0, {}) ops) (a : GNode) (m : Node)
+    (h : (a, GNode.elem m) ∈ (C02.run (env0, {}) ops).2.ge) : m ∉ (C02.run (env0, {}) ops).2.inputs :=
+  (reachable_inv_full lt ho env0 hw0 ops hadm).1.inputsNoPreds a m h
+
+/-- **Uncached cells hold no values** – whatever flag flips, formula edits, deletions and
+re-creations the history contains: the flag that counts is the one in force NOW. -/
+theorem uncached_holds_nothing_full (lt : Node → Node → Prop) (ho : StrictOrder lt) (env0 : Env)
+    (hw0 : C02.WF env0 lt) (ops : List C02.Op) (hadm : C02.Admissible lt (env0, {}) ops) (m : Node)
+    (hc : (C02.run (env0, {}) ops).1.cached m.1 = false) :
+    lookup (C02.run (env0, {}) ops).2.data m = none := by
+  cases h : lookup (C02.run (env0, {}) ops).2.data m with
+  | none => rfl
+  | some v =>
+    have := ((reachable_inv_full lt ho env0 hw0 ops hadm).1.heldNodes m (by rw [h]; rfl)).2
+    rw [hc] at this; cases this
+
+/-- **An object node is in the graph only for a cells that is uncached NOW and exists NOW.** -/
+theorem object_nodes_only_for_uncached_full (lt : Node → Node → Prop) (ho : StrictOrder lt) (env0 : Env)
+    (hw0 : C02.WF env0 lt) (ops : List C02.Op) (hadm : C02.Admissible lt (env0, {}) ops) (c : CellId)
+    (h : GNode.obj c ∈ (C02.run (env0, {}) ops).2.gn) :
+    (C02.run (env0, {}) ops).1.cached c = false ∧ (C02.run (env0, {}) ops).1.alive c = true :=
+  have hci := (C02.run_ci lt ho ops (env0, {}) hw0 (CI.empty env0 lt) hadm).1
+  ⟨hci.alive.objs c h, hci.alive.nodes _ h⟩
+
+/-- **Reported dependencies are exactly the calls made**: for an element `n` holding a computed value
+there is a trace `tr` of its formula – the formula, fed the recorded answers, asks exactly the
+recorded questions and returns the held value (`Replay`); every recorded cached callee holds the
+recorded value now – such that the predecessors of `n` in the dependency graph are exactly the
+recorded callees: `a → n` is an edge iff `a` is a cached element recorded as called (by `n`'s formula
+or, flattened by the `idx` rule, by an uncached callee's formula inside it) or the object node of an
+uncached cells recorded as called. -/
+theorem edges_are_exactly_the_calls {env : Env} {lt : Node → Node → Prop} {s : St} (h : CI env lt s)
+    (n : Node) (v : Val) (hl : lookup s.data n = some v) (hin : n ∉ s.inputs) :
+    ∃ tr, Replay env tr (env.formula n) v ∧
+      (∀ m w, FEv.call m w ∈ flat n.1 tr → lookup s.data m = some w) ∧
+      ∀ a, (a, GNode.elem n) ∈ s.ge ↔
+        (∃ m w, a = .elem m ∧ FEv.call m w ∈ flat n.1 tr) ∨ (∃ m, a = .obj m.1 ∧ FEv.ucall m ∈ flat n.1 tr) := by
+  obtain ⟨tr, hc⟩ := h.certs n v hl hin
+  refine ⟨tr, hc.replay, fun m w hm => (hc.events _ hm).1, fun a => ⟨hc.just a, ?_⟩⟩
+  rintro (⟨m, w, rfl, hm⟩ | ⟨m, rfl, hm⟩)
+  · exact (hc.events _ hm).2.2
+  · exact hc.events _ hm
+
+/-- …in every reachable state of the full edit language; user inputs have no predecessors
+(`inputs_have_no_preds_full`). -/
+theorem reachable_edges_are_exactly_the_calls (lt : Node → Node → Prop) (ho : StrictOrder lt) (env0 : Env)
+    (hw0 : C02.WF env0 lt) (ops : List C02.Op) (hadm : C02.Admissible lt (env0, {}) ops) (n : Node) (v : Val)
+    (hl : lookup (C02.run (env0, {}) ops).2.data n = some v) (hin : n ∉ (C02.run (env0, {}) ops).2.inputs) :
+    ∃ tr, Replay (C02.run (env0, {}) ops).1 tr ((C02.run (env0, {}) ops).1.formula n) v ∧
+      (∀ m w, FEv.call m w ∈ flat n.1 tr → lookup (C02.run (env0, {}) ops).2.data m = some w) ∧
+      ∀ a, (a, GNode.elem n) ∈ (C02.run (env0, {}) ops).2.ge ↔
+        (∃ m w, a = .elem m ∧ FEv.call m w ∈ flat n.1 tr) ∨ (∃ m, a = .obj m.1 ∧ FEv.ucall m ∈ flat n.1 tr) :=
+  edges_are_exactly_the_calls (C02.run_ci lt ho ops (env0, {}) hw0 (CI.empty env0 lt) hadm).1 n v hl hin
+
+/-! Non-vacuity: after `c3()` in the program of C02, `c2(1)` – computed through the uncached `c1` – has
+the predecessors `c0(1)` (called by `c1` on its behalf) and the object node of `c1`; the theorem gives
+a trace of `c2`'s formula in which exactly these are the recorded calls. -/
+example : (C02.run (C02.xEnv, {}) [.eval (3, [])]).2.ge =
+    [(.elem (0, [.int 1]), .elem (2, [.int 1])), (.obj 1, .elem (2, [.int 1])),
+     (.elem (2, [.int 1]), .elem (3, []))] := by decide
+
+example : ∃ tr, Replay C02.xEnv tr (C02.xEnv.formula (2, [.int 1])) (.int 26) ∧
+    ∀ a, (a, GNode.elem (2, [.int 1])) ∈ (C02.run (C02.xEnv, {}) [.eval (3, [])]).2.ge ↔
+      (∃ m w, a = .elem m ∧ FEv.call m w ∈ flat 2 tr) ∨ (∃ m, a = .obj m.1 ∧ FEv.ucall m ∈ flat 2 tr) := by
+  obtain ⟨tr, h1, _, h3⟩ := reachable_edges_are_exactly_the_calls idLt idLt_strict C02.xEnv C02.xEnv_wf
+    [.eval (3, [])] ⟨C02.xEnv_wf, trivial⟩ (2, [.int 1]) (.int 26) (by decide) (by decide)
+  exact ⟨tr, h1, h3⟩
+
+/-! Non-vacuity: the history `C02.yOps` (evaluations, an assignment, the deletion and re-creation of a
+cells, in the four-cells / two-spaces program with an uncached cells) is admissible; its graph. -/
+example (a : GNode) : ¬ Path (C02.run (C02.xEnv, {}) C02.yOps).2.ge a a :=
+  graph_acyclic_full idLt idLt_strict C02.xEnv C02.xEnv_wf C02.yOps C02.yOps_admissible a
+
+example : (C02.run (C02.xEnv, {}) C02.yOps).2.ge =
+    [(.elem (0, [.int 1]), .elem (2, [.int 1])), (.obj 1, .elem (2, [.int 1])),
+     (.elem (2, [.int 1]), .elem (3, []))] := by decide
 
 end MxModel.C08
